@@ -12,6 +12,7 @@ import (
 	"strings"
 	"testing"
 
+	"github.com/named-data/ndnd/fw/face"
 	"github.com/named-data/ndnd/fw/table"
 	enc "github.com/named-data/ndnd/std/encoding"
 	"verif/harness/common"
@@ -61,8 +62,11 @@ type rkey struct {
 }
 
 func gen(g *common.Gen) {
+	// common.NewRand(seed+1) is common.NewRand(seed) advanced by one step, so the batches of the
+	// thorough tier (consecutive seeds) would be shifted copies of each other; mix the seed in.
+	root := common.NewRand(g.R.U64() ^ (common.Seed() * 0xD1B54A32D192ED03))
 	for i := 0; i < g.N; i++ {
-		r := g.R.Fork()
+		r := root.Fork()
 		u := genUniverse(r, r.Range(5, 22), 7)
 		m := r.Range(1, 6)
 		texts := make([]string, len(u))
@@ -271,8 +275,10 @@ func exec(op string) string {
 			insts = nil
 			return c
 		}
+		// instance 0 is the process-global Rib (the table management and the face table use), so
+		// that face clean-up can go through face.FaceTable.Remove; instance 1 is independent
 		insts = []inst{
-			{table.VerifNewFibTree(), table.VerifNewRib()},
+			{table.VerifNewFibTree(), table.VerifResetGlobalRib()},
 			{table.VerifNewFibHashTable(uint16(m)), table.VerifNewRib()},
 		}
 		return "ok"
@@ -287,8 +293,14 @@ func exec(op string) string {
 		face, origin := common.Atou(f[2]), common.Atou(f[3])
 		return each(func(in inst) { in.rib.RemoveRouteEnc(common.ParseNameText(n), face, origin) })
 	case "cleanup":
-		face := common.Atou(f[1])
-		return each(func(in inst) { in.rib.CleanUpFace(face) })
+		faceID := common.Atou(f[1])
+		return each(func(in inst) {
+			if in.rib == &table.Rib {
+				face.FaceTable.Remove(faceID) // fw/face/table.go: the production path of a face teardown
+			} else {
+				in.rib.CleanUpFace(faceID)
+			}
+		})
 	case "qa":
 		return with(func(in inst) string {
 			s := make([]string, len(univ))
